@@ -180,6 +180,7 @@ type e2eCase struct {
 	Answer []string `json:"answer,omitempty"`
 	Cipher int      `json:"cipher"`
 	Pos    int      `json:"pos,omitempty"` // udp: packet position of the probe in the association (0 = first)
+	Rep    int      `json:"rep,omitempty"` // udp: the probe is sent this many times in a row (0 = once)
 }
 
 var rejectReps = []string{"127.0.0.1", "127.255.255.254", "10.1.2.3", "172.16.0.1", "172.31.255.255", "192.168.1.1", "100.64.0.1", "100.127.255.255", "169.254.169.254", "0.0.0.0", "224.0.0.1", "239.255.255.255", "255.255.255.255",
@@ -389,9 +390,14 @@ func udpScenario(c e2eCase) *engine.Scenario {
 	}
 	probe := udpx.Op{K: "S", C: 0, Key: 0, N: 10, Raw: append(socksBytes(c, 53), []byte("0123456789")...)}
 	_ = dst
+	rep := c.Rep
+	if rep == 0 {
+		rep = 1
+	}
+	isProbe := func(i int) bool { return i >= c.Pos && i < c.Pos+rep }
 	var ops []udpx.Op
-	for i := 0; i < 3; i++ {
-		if i == c.Pos {
+	for i := 0; i < 2+rep; i++ {
+		if isProbe(i) {
 			ops = append(ops, probe)
 		} else {
 			ops = append(ops, okOp)
@@ -431,7 +437,7 @@ func udpScenario(c e2eCase) *engine.Scenario {
 					add("traffic-to-nonpublic{udp,"+c.Enc+"}", "step %d: the proxy sent a datagram to %s", i, o)
 				}
 			}
-			if i == c.Pos {
+			if isProbe(i) {
 				cls := classifyIP(norm(net.ParseIP(c.Addr)))
 				if c.Enc == "empty" {
 					cls = reject
@@ -456,7 +462,7 @@ func udpScenario(c e2eCase) *engine.Scenario {
 				if cls == accept && c.Enc != "name" && len(outs) != 1 {
 					add("public-not-served{udp,"+c.Enc+"}", "packet %d to a public destination was not sent (%d datagrams)", i, len(outs))
 				}
-			} else if i < 3 && len(outs) != 1 {
+			} else if i < len(ops) && len(outs) != 1 {
 				add("allowed-packet-dropped", "packet %d (allowed destination) of the association was not forwarded", i)
 			}
 		}
@@ -473,8 +479,113 @@ func udpCases() []e2eCase {
 			cc.Pos = pos
 			out = append(out, cc)
 		}
+		// the same destination several times in a row (every datagram is checked, not only the
+		// first one naming a destination), at the start of an association and inside it
+		for _, pr := range [][2]int{{0, 2}, {1, 2}, {1, 3}} {
+			cc := c
+			cc.Pos, cc.Rep = pr[0], pr[1]
+			out = append(out, cc)
+		}
 	}
 	return out
+}
+
+// dialPair: two clients at the same time, one asking for a non-public and one for a public
+// destination; whatever the interleaving of the two dials (including inside the dial-time check:
+// accesses to closure-shared variables are scheduling points here), the first is never connected
+// and the second is served.
+func dialPair(bad, good string, badFirst bool) *engine.Scenario {
+	var statuses [2]string
+	var outs []string
+	var got [2]int
+	name := fmt.Sprintf("dial-pair{%s|%s|%v}", bad, good, badFirst)
+	sc := &engine.Scenario{Name: name, Opt: vrt.Options{Horizon: time.Hour, VarYield: true}}
+	sc.Body = func() {
+		statuses, outs, got = [2]string{}, nil, [2]int{}
+		vnet.Reset()
+		hk.ResetLogs()
+		key := world.MakeKey("k", world.Ciphers[0], "secret")
+		w := world.NewTCP([]*world.Key{key}, 0, 59*time.Second)
+		w.Start()
+		var lns []*world.Target
+		for _, a := range []string{bad, good} {
+			lns = append(lns, world.StartTarget(net.JoinHostPort(a, "8080"), func(t *world.Target, i int, cn *vnet.TCPConn) {
+				cn.Write([]byte("hello from target"))
+				t.ReadAll(i, cn)
+				cn.Close()
+			}))
+		}
+		dsts := []string{bad, good}
+		froms := []string{"203.0.113.7:0", "203.0.113.8:0"}
+		order := []int{0, 1}
+		if !badFirst {
+			order = []int{1, 0}
+		}
+		var ts []*vrt.Thread
+		for _, i := range order {
+			i := i
+			ts = append(ts, vrt.Spawn(fmt.Sprintf("client%d", i), func() {
+				enc := "ip4"
+				if net.ParseIP(dsts[i]).To4() == nil {
+					enc = "ip6"
+				}
+				wire := world.EncodeStream(key, uint64(5+i), socksBytes(e2eCase{Enc: enc, Addr: dsts[i]}, 8080), []byte("ping"))
+				cl := world.Dial(froms[i])
+				cl.Send(wire, 0)
+				cl.CloseWrite()
+				cl.ReadAll()
+				cl.Close()
+				plain, _ := world.DecodeStream(key, cl.Got)
+				got[i] = len(plain)
+			}))
+		}
+		vrt.Join(ts...)
+		vrt.WaitIdle()
+		w.Stop()
+		for _, l := range lns {
+			l.Ln.Close()
+		}
+		for _, c := range w.Conns {
+			for i := range froms {
+				if strings.HasPrefix(c.Remote, strings.TrimSuffix(froms[i], ":0")+":") {
+					statuses[i] = c.Status()
+				}
+			}
+		}
+		for _, ev := range vrt.Cur().Events {
+			if ev.Kind == "srv.tcp.out" {
+				outs = append(outs, ev.B)
+			}
+		}
+	}
+	sc.Check = func(x *vrt.Exec) (string, bool, []*engine.Finding) {
+		fs := hk.Generic(x, hk.Opts{})
+		if len(fs) > 0 {
+			return "generic", true, fs
+		}
+		for _, o := range outs {
+			h, _, _ := net.SplitHostPort(o)
+			if classifyIP(norm(net.ParseIP(h))) == reject {
+				fs = append(fs, &engine.Finding{Sig: "traffic-to-nonpublic{tcp,concurrent}", Msg: fmt.Sprintf("with a dial to %s in flight at the same time, the proxy connected to %s (statuses %v)", good, o, statuses)})
+			}
+		}
+		if got[0] != 0 {
+			fs = append(fs, &engine.Finding{Sig: "nonpublic-served{concurrent}", Msg: fmt.Sprintf("client received %d bytes from %s", got[0], bad)})
+		}
+		if statuses[1] != "OK" || got[1] == 0 {
+			fs = append(fs, &engine.Finding{Sig: "public-not-served{concurrent}", Msg: fmt.Sprintf("with a dial to %s in flight at the same time, the public destination %s was not served: status %s, %d bytes", bad, good, statuses[1], got[1])})
+		}
+		return fmt.Sprint(statuses, outs, got), true, fs
+	}
+	return sc
+}
+
+func dialPairs() []*engine.Scenario {
+	return []*engine.Scenario{
+		dialPair("10.1.2.3", "93.184.216.34", true),
+		dialPair("127.0.0.1", "8.8.8.8", false),
+		dialPair("fd12:3456::1", "2606:4700::1111", true),
+	}
 }
 
 func init() {
@@ -489,11 +600,21 @@ func init() {
 				ctx.RunCase("e2e-udp", "E", udpScenario(c), c, nil)
 			}
 		}
+		bound := 2
+		if ctx.Tier == "thorough" {
+			bound = 3
+		}
+		for _, sc := range dialPairs() {
+			engine.ExploreS(ctx, sc, engine.SConfig{Bound: bound, Shard: ctx.Shard, NShards: ctx.NShards, Deadline: ctx.Deadline})
+		}
 		policyV6(ctx)
 		policyV4(ctx)
 	})
 	hk.Replayers["C05"] = func(ctx *engine.Ctx, rp engine.Replay) []*engine.Finding {
 		sub := &engine.Ctx{Res: engine.NewResult("C05", ctx.Tier)}
+		if strings.HasPrefix(rp.Unit, "dial-pair") {
+			return engine.ReplayScenario(dialPairs(), rp)
+		}
 		switch rp.Unit {
 		case "policy-v4", "policy-v6":
 			var pc polCase
